@@ -517,10 +517,12 @@ def _pds_to_de(dict_values):
     output = ''
     outputs = []
     for key in keys:
-        tag = int(key[3:])
+        # tags are normally numeric. loads also returns PDS tags that are not, so write those back as they were read
+        tag = key[3:]
+        tag = f'{int(tag):04}' if tag.isascii() and tag.isdigit() else f'{tag:0>4}'
         LOGGER.debug(f'tag={tag}')
         length = len(dict_values[key])
-        add_output = f'{tag:04}{length:03}{dict_values[key]}'
+        add_output = f'{tag}{length:03}{dict_values[key]}'
         if len(output + add_output) > 999:
             outputs.append(output)
             output = ''
